@@ -319,7 +319,7 @@ func runC11(r *Run) error {
 	if r.Tier == "thorough" {
 		scens = 600
 	}
-	for _, w := range []string{"cancel-while-waiting", "fetch-fails-once"} {
+	for _, w := range []string{"cancel-while-waiting", "fetch-fails-once", "fetch-fails-many"} {
 		if err := c11Forced(r, w); err != nil {
 			return err
 		}
@@ -618,6 +618,7 @@ func c11Scenario(r *Run, si int) error {
 //	    before the slot wait; the worker continues; Sync(background,[h]).
 //	"fetch-fails-once": the block of h cannot be fetched; Sync(ctx1,[h]); the block becomes
 //	    fetchable again; Sync(background,[h]).
+//	"fetch-fails-many": the same with 40 failing requests (more than there are fetch slots).
 func c11Forced(r *Run, which string) error {
 	s, err := NewScen(2, "eventlog", &ScenOpts{Writers: []int{0}})
 	if err != nil {
@@ -666,6 +667,21 @@ func c11Forced(r *Run, which string) error {
 		}
 		g.emit(loadEv(1))
 		g.quiesce(0, nil, "failed fetch")
+		s.Reps[1].API.FailGet(hk, false)
+		g.emit("EFail []")
+	case "fetch-fails-many":
+		// more failed fetches than the replicator has fetch slots (32): every failure must give
+		// its slot back, or the later requests find none
+		s.Reps[1].API.FailGet(hk, true)
+		g.emit("EFail " + sim.CoqListN([]int{g.num(hk)}))
+		for k := 1; k <= 40 && !g.hang; k++ {
+			failed++
+			if err := g.store.Sync(context.Background(), copyHeads(heads)); err != nil {
+				return err
+			}
+			g.emit(loadEv(k))
+			g.quiesce(0, nil, fmt.Sprintf("failed fetch %d", k))
+		}
 		s.Reps[1].API.FailGet(hk, false)
 		g.emit("EFail []")
 	}
